@@ -33,7 +33,7 @@ func otBit(i int, data []byte) byte { return (data[i>>3] >> (i & 7)) & 1 }
 func fieldRows(obj interface{}, name string) [][]byte {
 	f, err := fx.Unexported(reflect.ValueOf(obj), name)
 	if err != nil {
-		panic(err)
+		panic(vk.HarnessErrPrefix + err.Error())
 	}
 	var out [][]byte
 	switch f.Kind() {
